@@ -84,10 +84,14 @@ Sig ==
   LET o == Obs[case]  p == Parse(o.e)  cut == Len(o.e) - Len(o.part.post) + 1
       pp == IF o.part.has_post THEN Parse(o.part.post) ELSE [st |-> "none"] IN
   IF p.st # "ok" \/ p.toks = <<>>
-  THEN [reproot |-> FALSE, flagcut |-> FALSE, rootedtree |-> FALSE, sepclass |-> FALSE,
+  THEN [reproot |-> FALSE, flagcut |-> FALSE, cutok |-> FALSE, rootedtree |-> FALSE, sepclass |-> FALSE,
         postflagtree |-> (pp.st = "ok" /\ FlagBeforeLeadingTree(pp.toks))]
   ELSE [reproot |-> (p.toks[1].k = "rep" /\ RootOf(Strip(p.toks)) = "always"),
         flagcut |-> (o.part.has_post /\ \E j \in DOMAIN p.toks : p.toks[j].a < p.toks[j].f /\ p.toks[j].a < cut),
+        (* the pinned code cuts the text where a top-level token begins (with or without its flags); only in  *)
+        (* front of a tree wildcard does it cut inside a flag group: a cut anywhere else is not KF26          *)
+        cutok |-> (o.part.has_post /\ (\/ \E j \in DOMAIN p.toks : cut = p.toks[j].a \/ cut = p.toks[j].f
+                                      \/ \E j \in DOMAIN p.toks : p.toks[j].k = "tree" /\ p.toks[j].a < cut /\ cut <= p.toks[j].f)),
         rootedtree |-> RootedTreeFirst(Strip(p.toks)),
         sepclass |-> ClassListsSep(Strip(p.toks)),
         postflagtree |-> (pp.st = "ok" /\ FlagBeforeLeadingTree(pp.toks))]
